@@ -112,7 +112,10 @@ Fixpoint strs_eq (a b : list string) : bool :=
   match a, b with [], [] => true | x :: r, y :: s => String.eqb x y && strs_eq r s | _, _ => false end.
 
 (* ---------- vocabulary of the regenerated facts ---------- *)
-Inductive sortkey := KInitCount | KNegInitCount.     (* key=lambda dc: len(get_init_fields(dc))  /  the negated count *)
+Inductive sortkey := KInitCount | KNegInitCount | KAllCount.
+                                                     (* key=lambda dc: len(get_init_fields(dc)) / its negation / len(fields(dc)) *)
+Inductive candset := FInit | FAll.                   (* the candidate's names: get_init_fields(child) / fields(child) *)
+Inductive reqset := ReqInit | ReqAll.                (* required names: chain(extra_args, init_args) / .., non_init_args) *)
 Inductive cmpop := CGe | CGt | CEq | CLe.            (* child_init_field_names <op> req_init_field_names *)
 Inductive pick := PickFirst | PickLast.              (* for child in derived: if ..: return  /  over reversed(derived) *)
 Inductive droprule := DropNotDis | DropDis.          (* drop_extra_fields = not cls.decode_into_subclasses  /  without `not` *)
@@ -159,6 +162,8 @@ Section WithFacts.
   Variable TYPE_KEY : string.          (* Gen: DC_TYPE_KEY *)
   Variable skey : sortkey.             (* Gen: key of derived_classes.sort *)
   Variable cmp : cmpop.                (* Gen: comparison of the superset test *)
+  Variable cset : candset.             (* Gen: which fields of a candidate the test looks at *)
+  Variable rset : reqset.              (* Gen: which of the fields found in the dict are required of the candidate *)
   Variable pk : pick.                  (* Gen: which matching candidate is returned *)
   Variable drule : droprule.           (* Gen: default of drop_extra_fields from decode_into_subclasses *)
   Variable dis_absent : bool.          (* Gen: default of getattr(cls, "decode_into_subclasses", ..) *)
@@ -177,7 +182,19 @@ Section WithFacts.
   Definition locate (t : string) : option cdecl := find (fun c => String.eqb (qual (c_name c)) t) h.
 
   Definition key_of (c : cdecl) : nat :=
-    match skey with KInitCount => List.length (init_fields c) | KNegInitCount => 1000 - List.length (init_fields c) end.
+    match skey with
+    | KInitCount => List.length (init_fields c)
+    | KNegInitCount => 1000 - List.length (init_fields c)
+    | KAllCount => List.length (c_fields c)
+    end.
+  Definition cand_names (c : cdecl) : list string := match cset with FInit => init_names c | FAll => field_names c end.
+  (* chain(extra_args, init_args[, non_init_args]) *)
+  Definition req_names (c : cdecl) (extra : list string) (present : list (string * value)) : list string :=
+    (extra ++ map fst (filter (fun kv => is_init c (fst kv)) present)
+      ++ match rset with
+         | ReqInit => []
+         | ReqAll => map fst (filter (fun kv => negb (is_init c (fst kv))) present)
+         end)%list.
   Definition cmp_holds (child req : list string) : bool :=
     let ge := forallb (fun k => str_in k child) req in
     let le := forallb (fun k => str_in k req) child in
@@ -188,14 +205,15 @@ Section WithFacts.
     flat_map (fun n => if String.eqb n cls then [] else match find_class h n with Some c => [c] | None => [] end) (enum cls).
   Definition choose (cls : string) (req : list string) : option cdecl :=
     let sorted := sort_by key_of (candidates cls) in
-    find (fun c => cmp_holds (init_names c) req) (match pk with PickFirst => sorted | PickLast => rev sorted end).
+    find (fun c => cmp_holds (cand_names c) req) (match pk with PickFirst => sorted | PickLast => rev sorted end).
 
   Definition extras_of (c : cdecl) (keys : list string) : list string :=
     filter (fun k => negb (str_in k (field_names c))) keys.
 
   (* from_dict once `_type_` is out of the way.  dec ft drop = the decoded values of the dict's keys that ft knows.
      Every field found in the dict is popped (init or not); what is left are the extra keys.  The search asks for the
-     extra keys plus the INIT fields found (req_init_field_names), among the candidates' INIT fields. *)
+     extra keys plus the fields found (req_names: the init ones only, or all of them), among the candidates' fields
+     (cand_names: the init ones only, or all of them). *)
   Definition build (dec : (string -> option fty) -> bool -> list (string * res value)) (keys : list string)
              (c : cdecl) (dropo : option bool) : res value :=
     let drop := match dropo with Some b => b | None => drop_default (dis_of (c_name c)) end in
@@ -206,7 +224,7 @@ Section WithFacts.
         | [] => construct c present
         | extra =>
             if drop then construct c present
-            else match choose (c_name c) (extra ++ map fst (filter (fun kv => is_init c (fst kv)) present))%list with
+            else match choose (c_name c) (req_names c extra present) with
                  | None => Err (Raise "RuntimeError")        (* cls(..init_args) with the unknown keys *)
                  | Some child =>
                      (* return from_dict(child_class, d, drop_extra_fields=False) *)
